@@ -175,3 +175,28 @@ Example ex_history :
   let s := run [Sub 1 10; Sub 2 20; Sub 3 30; Unsub 2 20; AwakeNext; Sub 4 40; AwakeAll; Unsub 3 30] in
   scheduled s = [(1, 10); (3, 30); (4, 40)] /\ waiting s = [] /\ revoked s = [30] /\ errors s = 0.
 Proof. vm_compute. repeat split. Qed.
+
+(** nobody is woken twice: if every subscription carries a token of its own (they are fresh [Interrupt] objects), then no
+    pair occurs twice among the scheduled and the waiting ones - for every history *)
+Lemma subseq_In a : forall b x, subseq a b -> In x a -> In x b.
+Proof.
+  induction a as [|y a IH]; intros b x H Hin; [destruct Hin|].
+  induction b as [|z b IHb]; cbn in H; [contradiction|].
+  destruct H as [[-> H]|H].
+  - destruct Hin as [<-|Hin]; [left; reflexivity|right; eapply IH; eauto].
+  - right. apply IHb; exact H.
+Qed.
+
+Lemma subseq_NoDup a : forall b, subseq a b -> NoDup b -> NoDup a.
+Proof.
+  induction a as [|y a IH]; intros b H Hnd; [constructor|].
+  induction b as [|z b IHb]; cbn in H; [contradiction|].
+  inversion Hnd as [|? ? Hz Hb]; subst.
+  destruct H as [[-> H]|H].
+  - constructor; [|eapply IH; eauto]. intros Hin. apply Hz. eapply subseq_In; eauto.
+  - apply IHb; assumption.
+Qed.
+
+Theorem nobody_woken_twice ops :
+  NoDup (all_subs ops) -> NoDup (scheduled (run ops) ++ waiting (run ops)).
+Proof. intros H. eapply subseq_NoDup; [apply scheduled_in_subscription_order|exact H]. Qed.
